@@ -65,8 +65,10 @@ func (m *C09Monitor) OnCommit(w *world.World, e *world.CommitEvent) {
 			case c.HeartbeatLocks != nil:
 				heartbeats[c.HeartbeatLocks.ProcessId] = c.HeartbeatLocks.Time
 			case c.TimeoutLocks != nil:
-				if c.TimeoutLocks.Timeout > sweepAt {
-					sweepAt = c.TimeoutLocks.Timeout
+				// the sweep is judged at the clock at which it decided, not at the
+				// value it put into its command
+				if e.SubClocks[i] > sweepAt {
+					sweepAt = e.SubClocks[i]
 				}
 			}
 		}
